@@ -1,6 +1,7 @@
 """C04: bytecode argument codec -- reader (split_string_v2) and writer (CompiledItem::repr, binary form) against the
 codec spec, plus the round-trip lemma: every argument vector is read back exactly as written."""
 from vlib.rules import *
+import re
 
 READER = "bytecode/src/instruction.rs"
 WRITER = "compiler/src/ast.rs"
@@ -53,9 +54,9 @@ def writer_rules():
 decreases arguments.len() - verif_k,"""),
                 "{", f"let {text(b['x'])} = & arguments [ verif_k ] ;", G("let ghost verif_before = args@;"), "verif_k += 1 ;", *body,
                 G("""proof {
-    reveal_strlit("\\\\\\\\"); reveal_strlit("\\\\\\"");
-    assert("\\\\\\\\"@ =~= lit_bs2()); assert("\\\\\\""@ =~= lit_bsq());
-    lemma_two_replaces_is_esc(arguments@[verif_k - 1]@);
+    reveal_strlit("\\\\\\\\"); reveal_strlit("\\\\\\""); reveal_strlit("\\\\n"); reveal_strlit("\\\\r");
+    assert("\\\\\\\\"@ =~= lit_bs2()); assert("\\\\\\""@ =~= lit_bsq()); assert("\\\\n"@ =~= lit_bsn()); assert("\\\\r"@ =~= lit_bsr());
+    lemma_four_replaces_is_esc(arguments@[verif_k - 1]@);
     let sub = verif_args0.subrange(0, verif_k as int);
     assert(sub.drop_last() =~= verif_args0.subrange(0, verif_k - 1));
     assert(sub.last() == arguments@[verif_k - 1]@);
@@ -66,8 +67,9 @@ decreases arguments.len() - verif_k,"""),
     return [
         Rule("R1", "String :: new ( )", "Vec :: < char > :: new ( )", why="String -> Vec<char>"),
         Rule("R2", "for $x in & arguments [ .. ] { $$body }", loop, count=1, why="for over a slice -> indexed while"),
-        Rule("R9", "$x . replace ( $c , $s ) . replace ( $c2 , $s2 )", "str_replace ( & str_replace ( $x , $c , & strlit_chars ( $s ) ) , $c2 , & strlit_chars ( $s2 ) )", why="str::replace(char, &str) with spec replace_char"),
-        Rule("R9", "$x . replace ( $c , $s )", "str_replace ( $x , $c , & strlit_chars ( $s ) )", why="str::replace(char, &str) with spec replace_char"),
+        Rule("R9", "$x . replace ( $c , $s )", lambda b: (f"str_replace ( {text(b['x'])} , {text(b['c'])} , & strlit_chars ( {text(b['s'])} ) )" if len(b["x"]) == 1 and re.match(r"[A-Za-z_]\w*$", b["x"][0]) else None),
+             why="str::replace(char, &str) with spec replace_char"),
+        *[Rule("R9", "str_replace ( $$a ) . replace ( $c , $s )", "str_replace ( & str_replace ( $$a ) , $c , & strlit_chars ( $s ) )", why="str::replace chain") for _ in range(6)],
         Rule("R1", "$a . push_str ( $b . as_ref ( ) ) ;", "push_chars ( & mut $a , & $b ) ;", count=1, why="String::push_str -> append chars"),
         Rule("R9", "format ! ( \"{}{}\\0\" , * id as char , args )", "fmt_bin ( * id , & args )", count=1, why="format!(\"{}{}\\0\", id as char, args) with spec [id] ++ args ++ [NUL]"),
         Rule("R9", "format ! ( \"\\t{}{args}\\n\" , $$n )", "fmt_text ( $$n , & args )", count=1, why="format! of the text form"),
@@ -85,10 +87,12 @@ def fix_rules():
     ]
 
 
-SPEC = r"""
+LEMMAS_FOR_C18 = r"""
 //@ OBL C04.lemmas
 pub open spec fn lit_bs2() -> Seq<char> { seq!['\\', '\\'] }
 pub open spec fn lit_bsq() -> Seq<char> { seq!['\\', '"'] }
+pub open spec fn lit_bsn() -> Seq<char> { seq!['\\', 'n'] }
+pub open spec fn lit_bsr() -> Seq<char> { seq!['\\', 'r'] }
 
 pub proof fn lemma_replace_concat(s: Seq<char>, t: Seq<char>, c: char, w: Seq<char>)
     ensures replace_char(s + t, c, w) == replace_char(s, c, w) + replace_char(t, c, w)
@@ -102,49 +106,77 @@ pub proof fn lemma_replace_concat(s: Seq<char>, t: Seq<char>, c: char, w: Seq<ch
         assert(h + (replace_char(s.drop_first(), c, w) + replace_char(t, c, w)) =~= (h + replace_char(s.drop_first(), c, w)) + replace_char(t, c, w));
     }
 }
-// what the property needs of the writer's escaping: backslash first, then quote  ==  esc
-pub proof fn lemma_two_replaces_is_esc(a: Seq<char>)
-    ensures replace_char(replace_char(a, '\\', lit_bs2()), '"', lit_bsq()) == esc(a)
-    decreases a.len()
+pub proof fn lemma_replace_one(x: char, c: char, w: Seq<char>)
+    ensures replace_char(seq![x], c, w) == (if x == c { w } else { seq![x] })
 {
-    if a.len() == 0 {
-        assert(replace_char(a, '\\', lit_bs2()) =~= Seq::<char>::empty());
+    let e = Seq::<char>::empty();
+    assert(seq![x].drop_first() =~= e);
+    assert(replace_char(e, c, w) =~= e);
+    let h = if x == c { w } else { seq![x] };
+    assert(h + e =~= h);
+}
+pub proof fn lemma_replace_two(x: char, y: char, c: char, w: Seq<char>)
+    ensures replace_char(seq![x, y], c, w) == (if x == c { w } else { seq![x] }) + (if y == c { w } else { seq![y] })
+{
+    assert(seq![x, y] =~= seq![x] + seq![y]);
+    lemma_replace_concat(seq![x], seq![y], c, w);
+    lemma_replace_one(x, c, w); lemma_replace_one(y, c, w);
+}
+// the escaping as the real writer performs it: four str::replace calls, backslash first
+pub open spec fn four_replaces(a: Seq<char>) -> Seq<char> {
+    replace_char(replace_char(replace_char(replace_char(a, '\\', lit_bs2()), '"', lit_bsq()), '\n', lit_bsn()), '\r', lit_bsr())
+}
+pub proof fn lemma_four_replaces_one(c: char)
+    ensures four_replaces(seq![c]) == esc1(c)
+{
+    lemma_replace_one(c, '\\', lit_bs2());
+    if c == '\\' {
+        lemma_replace_two('\\', '\\', '"', lit_bsq()); lemma_replace_two('\\', '\\', '\n', lit_bsn()); lemma_replace_two('\\', '\\', '\r', lit_bsr());
+        assert(seq!['\\'] + seq!['\\'] =~= seq!['\\', '\\']);
     } else {
-        let c = a[0]; let rest = a.drop_first();
-        lemma_two_replaces_is_esc(rest);
-        let h1 = if c == '\\' { lit_bs2() } else { seq![c] };
-        assert(replace_char(a, '\\', lit_bs2()) == h1 + replace_char(rest, '\\', lit_bs2()));
-        lemma_replace_concat(h1, replace_char(rest, '\\', lit_bs2()), '"', lit_bsq());
-        let e = Seq::<char>::empty();
-        assert(replace_char(e, '"', lit_bsq()) =~= e);
-        if c == '\\' {
-            let t = seq!['\\'];
-            assert(h1.drop_first() =~= t);
-            assert(t.drop_first() =~= e);
-            assert(replace_char(t, '"', lit_bsq()) =~= seq!['\\'] + replace_char(e, '"', lit_bsq()));
-            assert(replace_char(h1, '"', lit_bsq()) =~= seq!['\\'] + replace_char(t, '"', lit_bsq()));
-            assert(replace_char(h1, '"', lit_bsq()) =~= seq!['\\', '\\']);
-        } else if c == '"' {
-            assert(h1.drop_first() =~= e);
-            assert(replace_char(h1, '"', lit_bsq()) =~= lit_bsq() + replace_char(e, '"', lit_bsq()));
-            assert(replace_char(h1, '"', lit_bsq()) =~= seq!['\\', '"']);
+        lemma_replace_one(c, '"', lit_bsq());
+        if c == '"' {
+            lemma_replace_two('\\', '"', '\n', lit_bsn()); lemma_replace_two('\\', '"', '\r', lit_bsr());
+            assert(seq!['\\'] + seq!['"'] =~= seq!['\\', '"']);
         } else {
-            assert(h1.drop_first() =~= e);
-            assert(replace_char(h1, '"', lit_bsq()) =~= seq![c] + replace_char(e, '"', lit_bsq()));
-            assert(replace_char(h1, '"', lit_bsq()) =~= seq![c]);
+            lemma_replace_one(c, '\n', lit_bsn());
+            if c == '\n' {
+                lemma_replace_two('\\', 'n', '\r', lit_bsr());
+                assert(seq!['\\'] + seq!['n'] =~= seq!['\\', 'n']);
+            } else {
+                lemma_replace_one(c, '\r', lit_bsr());
+            }
         }
     }
 }
-#[verifier::external_body]
-pub fn arbitrary_bool() -> (r: bool) { unimplemented!() }
-// format!("{}{}\0", *id as char, args)
-#[verifier::external_body]
-pub fn fmt_bin(id: u8, args: &Vec<char>) -> (r: Vec<char>) ensures r@ == seq![id as char] + args@ + seq!['\0'] { unimplemented!() }
-#[verifier::external_body]
-pub fn fmt_text(name: Vec<char>, args: &Vec<char>) -> (r: Vec<char>) ensures r@ == seq!['\t'] + name@ + args@ + seq!['\n'] { unimplemented!() }
-pub uninterp spec fn opcode_name_spec(id: u8) -> Seq<char>;
-#[verifier::external_body]
-pub fn opcode_name(id: u8) -> (r: Vec<char>) ensures r@ == opcode_name_spec(id) { unimplemented!() }
+pub proof fn lemma_four_replaces_concat(s: Seq<char>, t: Seq<char>)
+    ensures four_replaces(s + t) == four_replaces(s) + four_replaces(t)
+{
+    lemma_replace_concat(s, t, '\\', lit_bs2());
+    let s1 = replace_char(s, '\\', lit_bs2()); let t1 = replace_char(t, '\\', lit_bs2());
+    lemma_replace_concat(s1, t1, '"', lit_bsq());
+    let s2 = replace_char(s1, '"', lit_bsq()); let t2 = replace_char(t1, '"', lit_bsq());
+    lemma_replace_concat(s2, t2, '\n', lit_bsn());
+    let s3 = replace_char(s2, '\n', lit_bsn()); let t3 = replace_char(t2, '\n', lit_bsn());
+    lemma_replace_concat(s3, t3, '\r', lit_bsr());
+}
+// what the property needs of the writer's escaping
+pub proof fn lemma_four_replaces_is_esc(a: Seq<char>)
+    ensures four_replaces(a) == esc(a)
+    decreases a.len()
+{
+    if a.len() == 0 {
+        let e = Seq::<char>::empty();
+        assert(a =~= e);
+        assert(replace_char(e, '\\', lit_bs2()) =~= e); assert(replace_char(e, '"', lit_bsq()) =~= e);
+        assert(replace_char(e, '\n', lit_bsn()) =~= e); assert(replace_char(e, '\r', lit_bsr()) =~= e);
+    } else {
+        assert(a =~= seq![a[0]] + a.drop_first());
+        lemma_four_replaces_concat(seq![a[0]], a.drop_first());
+        lemma_four_replaces_one(a[0]);
+        lemma_four_replaces_is_esc(a.drop_first());
+    }
+}
 
 // ---- the record as the loader sees it (file.rs get_functions): `[id, b' ', args @ .., 0x00]` hands the text after the
 //      first space to split_string, i.e. enc_args(args) without its leading space
@@ -175,6 +207,21 @@ pub proof fn lemma_enc_args_head(args: Seq<Seq<char>>)
     }
 }
 """
+HELPERS = r"""
+#[verifier::external_body]
+pub fn arbitrary_bool() -> (r: bool) { unimplemented!() }
+// format!("{}{}\0", *id as char, args)
+#[verifier::external_body]
+pub fn fmt_bin(id: u8, args: &Vec<char>) -> (r: Vec<char>) ensures r@ == seq![id as char] + args@ + seq!['\0'] { unimplemented!() }
+#[verifier::external_body]
+pub fn fmt_text(name: Vec<char>, args: &Vec<char>) -> (r: Vec<char>) ensures r@ == seq!['\t'] + name@ + args@ + seq!['\n'] { unimplemented!() }
+pub uninterp spec fn opcode_name_spec(id: u8) -> Seq<char>;
+#[verifier::external_body]
+pub fn opcode_name(id: u8) -> (r: Vec<char>) ensures r@ == opcode_name_spec(id) { unimplemented!() }
+
+"""
+SPEC = LEMMAS_FOR_C18 + HELPERS
+
 
 
 def build(repo):
